@@ -1,6 +1,6 @@
 import MpsVerif.Model.Pipeline
 /-!
-# Legacy model: re-iterating a `Stream` on the pinned code (finding F22)
+# Legacy model: re-iterating a `Stream` on the pinned code (finding F23)
 
 On the pinned tree `Stream.accumulate` is `self.map(Accumulator())`: the running value lives in the
 `Accumulator` object that is created when the pipeline is *built* (`_streamer.py`,
@@ -23,7 +23,7 @@ def reiterStage (g : Stage) : Stage :=
 def reiter (ss : List Stage) : List Stage := ss.map reiterStage
 
 /-- the property fails on the pinned behaviour -/
-theorem F22_accumulate_reiterate_witness :
+theorem F23_accumulate_reiterate_witness :
     let ops : List Op := [.accumulate (Fn2.eval .add) Option.none]
     let vals : List Val := [.int 1, .int 2, .int 3]
     let first := takeK 50 4 (build ops) (World.init vals Option.none [])
